@@ -18,13 +18,19 @@ RULE = ("copulas: Clayton (theta log-uniform in [0.2,5] or exactly 1; eta unifor
         "a few degenerate finite sides; every sign pattern is forced in turn. non-trivial = at least one finite non-zero entry; "
         "distinct = distinct (probe, copula parameters, vectors)")
 NOT_PROVED = [
-    "d-increasing in d = 3 (all three copulas) is oracle-checked / compared with M only; the theorems cover d = 2",
-    "dependent copula: non-negative volume is a theorem for finite rectangles; rectangles with infinite end points are compared with M exactly and oracle-checked only",
-    "independent copula: the theorem excludes the rectangles having a corner (inf,inf), (-inf,inf) or (inf,-inf), where the code deviates from Kallsen-Tankov (4.2) (known finding, negation witness proved)",
+    "d-increasing in d = 3 is a theorem for Clayton (abstract generator with the third-order property Slope3; Real.rpow for every theta > 0; "
+    "the executable theta = 1 float model) on every box without a corner having three infinite entries, for the dependent copula on every box of "
+    "(-inf,inf]^3 (dep_three_increasing_all) and for the independent copula on the extended line outside the recorded deviation corners "
+    "(indep_three_increasing); Clayton boxes in d = 3 having a corner with three infinite entries (value +inf, or NaN for eta in {0,1}) are "
+    "oracle-checked / compared with M only",
+    "independent copula: the theorems exclude the rectangles having an all-infinite corner with at least d-1 entries +inf, where the code deviates "
+    "from Kallsen-Tankov (4.2) (known finding, negation witnesses proved in d = 2 and d = 3)",
     "Clayton for general theta: the theorems are about exact real arithmetic (Real.rpow, every theta > 0, eta in [0,1]) and rectangles without a corner having two infinite entries; "
     "the float evaluation abs(u)**(-theta), s**(-1/theta) is compared with mpmath, and the value at corners with two infinite entries (inf / NaN) is modelled exactly for theta = 1 only",
     "the mixed derivative (x_first_derivative) is compared with M at theta = 1 and with mpmath partial derivatives of formula (7); no derivative is proved",
-    "the conditional distribution being the xi-derivative of F(xi,x)-F(xi,-inf), its monotonicity and its limits 0/1 are oracle-checked; the inverse identity is a theorem (abstract powers and Real.rpow)",
+    "the conditional distribution being the xi-derivative of F(xi,x)-F(xi,-inf) is oracle-checked by finite differences only; its range [0,1], its "
+    "monotonicity on x != 0 and its limits 0/1 are theorems (abstract powers; Real.rpow for every theta > 0; the executable theta = 1 model), as is "
+    "the inverse identity; the value at x = 0 (the code divides by zero) is outside the theorems",
 ]
 ASSUMPTIONS = ["x_first_derivative is read as sign(prod u) * d^dF/du_1..du_d (what the code returns and what the property's "
                "'times the product of its arguments' can only mean: the literal product u_1*...*u_d fails at every input)",
